@@ -13,6 +13,7 @@ pub fn splitmix64(x: u64) -> u64 {
 pub const TAG_C14N: u64 = 0xC14A_0000_0000_0001;
 pub const TAG_C14M: u64 = 0xC14B_0000_0000_0002;
 pub const TAG_C15: u64 = 0xC150_0000_0000_0003;
+pub const TAG_C15M: u64 = 0xC15B_0000_0000_0006;
 
 pub fn run_seed(verif_seed: u64, tag: u64, index: u64) -> u64 {
     splitmix64(splitmix64(verif_seed ^ tag) ^ index.wrapping_mul(0xD6E8_FEB8_6659_FD93))
